@@ -133,6 +133,20 @@ def make_future_class():
         def cancel(self):
             esim.S.step("fut.cancel")
             return base.cancel(self)
+
+        # reads of the future's state are scheduling points too: a decision taken on one of them can be stale by the
+        # time it is acted upon
+        def cancelled(self):
+            esim.S.step("fut.cancelled")
+            return base.cancelled(self)
+
+        def running(self):
+            esim.S.step("fut.running")
+            return base.running(self)
+
+        def done(self):
+            esim.S.step("fut.done")
+            return base.done(self)
     return SimFuture
 
 
@@ -184,6 +198,11 @@ class Scenario:
                 kw["job_reducers"] = {tasks.Tagged: tasks.make_reducer(c["job_reducers"])}
             if c.get("result_reducers"):
                 kw["result_reducers"] = {tasks.Tagged: tasks.make_reducer(c["result_reducers"])}
+        # the machine's CPU count is an input of the reusable executor (its call queue has 2 * cpu_count() + 1 slots)
+        global _REAL_CPU_COUNT
+        if _REAL_CPU_COUNT is None:
+            _REAL_CPU_COUNT = ru.cpu_count
+        ru.cpu_count = (lambda n=c["cpus"]: n) if c.get("cpus") else _REAL_CPU_COUNT
         if c["kind"] == "plain":
             e = pe.ProcessPoolExecutor(max_workers=c["max_workers"], timeout=c.get("timeout"), context=esim.SimContext(), **kw)
         else:
@@ -308,7 +327,9 @@ class Scenario:
             self.policy.no_idle = False
             S.obs(ev="timeouts_on", u=u)
         elif k == "wait_label":
-            S.step("user.wait_label", pred=lambda: any(r["role"] == op[1] and r["label"] == op[2] and r["state"] == "ready" for r in S.recs.values()))
+            # (also returns once the watched thread has finished: it never got there)
+            S.step("user.wait_label", pred=lambda: any(r["role"] == op[1] and ((r["label"] == op[2] and r["state"] == "ready") or r["state"] == "done")
+                                                      for r in S.recs.values()))
         elif k == "wait_live":
             S.step("user.wait_live(%d)" % op[1], pred=lambda: len([1 for p in S.procs.values() if not p._dead]) <= op[1])
         elif k == "timeouts_off":
@@ -372,6 +393,7 @@ class Scenario:
 
 
 _CTX = [None]
+_REAL_CPU_COUNT = None
 
 
 def _ctx():
